@@ -5,7 +5,7 @@ from mc import strictjson
 import os
 import tempfile
 
-from mc import core, pelgen, impl, clidrv
+from mc import subchunk, core, pelgen, impl, clidrv
 from mc.core import ChunkResult
 from mc.ref import select as ref
 from mc.ref import hexdump as rhex
@@ -92,6 +92,8 @@ def plan(tier, seed):
         for part in range(parts):
             ch.append({'k': 'dir', 'mask': m, 'tier': tier, 'part': part, 'parts': parts})
     ch.append({'k': 'subproc'})
+    # the same under python -O (assertions stripped, __debug__ false)
+    ch += [dict(c, optimize=True) for c in [{'k': 'dir', 'mask': 7, 'tier': 'quick', 'part': 0, 'parts': 1}, {'k': 'dir', 'mask': 255, 'tier': 'quick', 'part': 0, 'parts': 8}]]
     return ch
 
 
@@ -202,6 +204,9 @@ def eval_case(case):
 
 
 def run_chunk(chunk):
+    routed = subchunk.route(__name__, chunk)
+    if routed is not None:
+        return routed
     res = ChunkResult()
     impl.ensure(False)
     if chunk['k'] == 'subproc':
